@@ -7,6 +7,30 @@ HOOK_COMMITS = ["1a17178"]
 
 # id -> (category, engine, technique, text, note)
 CHECKS = {
+ "C05": ("model_checking", "E2 seqmc (stateright BFS, implementation in the loop)",
+         "explicit-state breadth-first search over delivery schedules (reorder, duplicate, drop, garbage, undersized buffers, set_receiving_nonce) executed on real TransportStates against a nonce/provenance model",
+         "All call sequences up to the depth/deviation bound on 15 cipher x backend x direction x pattern instances: a delivery is accepted iff it is the unaltered message whose number equals the receiving nonce; rejections leave nonces untouched and the right next message is still accepted (explored below every state); merged and unmerged enumeration cross-checked.",
+         "Bounded: 4 sender messages, depth 6/8, 3/4 deviations; acceptance oracle is the abstract provenance model; payload bytes from a fixed pattern."),
+ "C06": ("model_checking", "E1 fault product + E2 seqmc with RecordingCipher / ScriptedRng seams",
+         "exhaustive fault-point enumeration and explicit-state BFS over call sequences, invariant evaluated on the merged Cipher::encrypt log and RNG log of both endpoints",
+         "For every handshake name (556) every single failing call (and pairs on base patterns) along the honest run, plus BFS over scattered failures, conversion, transport and rekeys: no (key, nonce) maps to two different (ad, plaintext); every `e` is the public key of bytes drawn during that very write.",
+         "Observer sits in the resolver (Builder::with_resolver); ScriptedRng mode only; caller-chosen nonces/keys (stateless mode, manual rekey to equal keys, the sending-nonce hook) are outside the alphabet."),
+ "C07": ("fault_enumeration", "E1 fault product (differential) + E2 seqmc",
+         "exhaustive enumeration of failure points and causes along the honest run (deviation bound 1, 2 on base patterns) with a differential oracle against the run without the failing calls; explicit-state BFS for scattered failures",
+         "Every failure cause the API can take (undersized buffers at every token boundary / every length in thorough, over-long payloads, out-of-turn calls, late PSKs, every bit-flip position (stride 8 quick), truncations, extensions, substitutions, transport failures) at every message of every handshake name: the continuation must be byte-identical to the clean run, every other step Ok, no public getter may change across the failed call.",
+         "Fixed ephemerals make runs pure functions of the call sequence; alterations the receiver accepts are not failed calls (C03's business)."),
+ "C09": ("model_checking", "E2 seqmc + verif-hooks nonce accessor + RecordingCipher",
+         "explicit-state BFS over transport call sequences with nonces placed at 0 and 2^64-3..2^64-1, compared with two u64 counters per endpoint; cipher log inspected for the reserved nonce",
+         "All sequences (depth 4/6) of writes/reads (valid, undersized, oversize, garbage), explicit nonce settings, rekeys, stateless calls at boundary nonces, on 20 cipher x backend x pattern x mode instances: counters move by exactly one on Ok and never otherwise, 2^64-1 yields Exhausted, writes nothing, never reaches Cipher::encrypt/decrypt.",
+         "Nonce values from a boundary alphabet; the stateful sender is positioned with the add-only hook verif_set_sending_nonce."),
+ "C11": ("model_checking", "E2 seqmc",
+         "explicit-state BFS over API call sequences on both endpoints for all 38 patterns and a psk variant of each, against a {role, position, phase} model",
+         "Every sequence of valid/invalid writes, genuine/stale/garbage reads, both conversions and transport calls up to depth 2n+2+3 (thorough +5) with at most 2 (3) out-of-phase calls: result variants are the documented state errors, failed calls change nothing, is_my_turn/is_handshake_finished/is_initiator always equal the model's values.",
+         "One primitive suite (the state machine does not depend on primitives); where two state errors apply either is accepted."),
+ "C15": ("model_checking", "E2 seqmc + reference AEAD",
+         "explicit-state BFS over write/read/rekey sequences on real transport states against a key-term model; bytes compared with REKEY computed by an independent AEAD",
+         "All sequences (depth 4/6) of write, read, rekey_outgoing/incoming and the three manual rekeys on both endpoints, stateful and stateless, 3 ciphers x 2 backends x interactive/one-way: reads succeed iff sender and receiver key terms agree, bytes equal reference ENCRYPT(key(term), n), nonces untouched by rekeys.",
+         "Transport reference is keyed with the keys the implementation installed at Split() (seen by the RecordingCipher) so that the verdict is independent of handshake conformance (C01)."),
  "C01": ("model_checking", "E1 product + refnoise",
          "exhaustive enumeration of all 13 344 protocol names x deviation-bounded input variations; every step of the real session executed in lock step with an independent reference model bound to third-party vectors",
          "Every handshake/transport message, handshake hash and payload-encrypted flag snow produces for every supported protocol name (both roles, fixed and scripted-RNG ephemerals, stateful/stateless, after a failed call) is compared byte for byte with refnoise; complete over names, bounded (alphabets) over key/prologue/payload values and lengths.",
